@@ -13,7 +13,8 @@ package main
 //	root                         Root()                                    -> ok <hex>
 //	weight                       Weight()                                  -> ok <n>
 //	owner <b>                    GetBlockProof(b) key                      -> ok <key> | range | notfound
-//	owners                       owner of every block 1..Weight()          -> ok <key8>*<n>,...
+//	owners                       owner of every block 1..Weight()          -> ok <key8>*<n>,... | toobig (> 2^12 blocks)
+//	ownersat <b1,b2,…>           owner of the listed blocks (each proof verified by the runner) -> ok <key8|err>@<b>,...
 //	proof <b> <slot>             GetBlockProof(b), VerifyBlockProof on a fresh trie; kept in <slot>
 //	                                                                       -> ok <key> n=<len> d=<digest> r=<root> v=<val>
 //	tamper <slot> <b> <class> …  tamper with the proof in <slot>, verify for block b   -> ok <root> <val> | err | skip
@@ -343,9 +344,49 @@ func (x *wrun) step(i int, f []string) string {
 			x.fail(i, "owner of block %d: got %q, want %q", b, out, want)
 		}
 		return out
+	case "ownersat":
+		x.hashRead()
+		var parts []string
+		root := canonRootW(x.live, nil)
+		for _, bs := range strings.Split(f[1], ",") {
+			b := u64(bs)
+			var key, proof []byte
+			out := guard(func() string {
+				var err error
+				key, proof, err = x.t.GetBlockProof(b)
+				if err != nil {
+					return werr(err)
+				}
+				k8 := hx(key)
+				if len(k8) > 8 {
+					k8 = k8[:8]
+				}
+				return k8
+			})
+			parts = append(parts, out+"@"+bs)
+			want, inRange := x.live.owner(b)
+			switch {
+			case !inRange:
+				if b >= 1 && out != "range" {
+					x.fail(i, "owner of block %d beyond the total weight %d: got %q, want range", b, x.live.total(), out)
+				}
+			case key == nil || string(key) != want:
+				x.fail(i, "owner of block %d is %q, want %x (total %d)", b, out, want, x.live.total())
+			default:
+				h, v, err := wmpt.New(nil, nil).VerifyBlockProof(b, append([]byte(nil), proof...))
+				if err != nil || !bytes.Equal(h, root) || !bytes.Equal(v, x.live[want].val) {
+					x.fail(i, "proof of block %d verifies to (%x, %x, %s), want (%x, %x)", b, h, v, werr(err), root, x.live[want].val)
+				}
+			}
+		}
+		x.tags["ownersat"] = true
+		return "ok " + strings.Join(parts, ",")
 	case "owners":
 		x.hashRead()
 		total := x.t.Weight()
+		if total > enumLimit {
+			return "toobig"
+		}
 		var runs []string
 		bad := ""
 		out := guard(func() string {
